@@ -248,8 +248,9 @@ void *mempcpy(void *dst, const void *src, size_t n)
 void *memrchr(const void *s, int c, size_t n)
 {
 	const uint8_t *p = s;
+	uint8_t ch = c;
 	while (n--) {
-		if (p[n] == c)
+		if (p[n] == ch)
 			return (void *)(p + n);
 	}
 	return NULL;
